@@ -9,7 +9,7 @@ from vf.harness import common as H
 
 PROPERTY = "C15"
 SETTINGS = {"witness_every": 1, "max_paths": 20000, "case_budget": 140.0, "budget_s": 300}
-SETTINGS_THOROUGH = {"max_paths": 200000, "case_budget": 1200.0, "budget_s": 1500}
+SETTINGS_THOROUGH = {"max_paths": 200000, "case_budget": 240.0, "budget_s": 1500}
 BOUNDS = {"quick": "2 real threads parsing independent symbolic streams with the same type objects under a controlled scheduler (one "
                    "runnable at a time, hand-over only at 'line' events inside repository files or generated readers); which thread runs "
                    "next at each switch point is an ENGINE DECISION VARIABLE; <= 1 pre-emption; 6 definitions (expression-sized arrays, "
@@ -194,6 +194,14 @@ def make(case):
 
 
 def cases(tier, seed):
+    # single pre-emption first, then the deeper (and much more expensive) schedules: a case that hits its time budget still
+    # reports the violations it found up to then, but only if it returns before the property's wall budget ends
+    out = list(_cases(tier, seed))
+    out.sort(key=lambda c: (c["preempt"] > 1 or c["threads"] > 2))
+    return out
+
+
+def _cases(tier, seed):
     quick = tier == "quick"
     for kind in DEFS:
         for compiled in (False, True):
@@ -212,7 +220,7 @@ def cases(tier, seed):
                         yield {"label": f"{kind} threads=2 preempt=1 warm={warm} dump={dump} slice={k}/{K}", "kind": kind, "cfg": cfg,
                                "threads": 2, "preempt": 1, "slice": [k, K], "warm": warm, "dump": dump}
                 if not quick:
-                    if kind in ("expr-2", "enum", "expr-neg"):
+                    if kind in ("expr-2", "enum", "expr-neg") and endian == "<":
                         for k in range(16):
                             yield {"label": f"{kind} threads=2 preempt=2 slice={k}/16", "kind": kind, "cfg": cfg, "threads": 2, "preempt": 2,
                                    "slice": [k, 16]}
